@@ -102,7 +102,8 @@ class Borrowed(object):
             self._check.note('clause borrowed as %s could not be decided by its lender: %s' % (self._rule_as, e))
 
     def saw(self, funcinfo):
-        pass
+        # what the lender read to decide the borrowed clauses counts as analysed by the borrower too (coverage, corpus selection)
+        self._check.saw(funcinfo)
 
     def floor(self, rule, n):
         pass
